@@ -17,7 +17,7 @@ namespace B6.Spec.TagQuery
 open B6.Spec.Cursor B6.Spec.SearchQuery
 
 /-- namespaces are numbered in increasing string order, 0 = the invalid (empty) namespace -/
-def nsBound : Nat := 2 ^ 32
+def nsBound : Nat := 8192   -- 13 namespace bits, as `compact.CombineTypeAndNamespace`: `key` is C08's `keyNat`
 def valBound : Nat := 2 ^ 64
 
 /-- the order embedding of `b6.FeatureID` -/
